@@ -213,7 +213,12 @@ func (a *sparseArrayObject) setOwnStr(name unistring.String, val Value, throw bo
 				a.val.runtime.typeErrorResult(throw, "length is not writable")
 				return false
 			}
-			return a.setLength(a.val.runtime.toLengthUint32(val), throw)
+			l := a.val.runtime.toLengthUint32(val)
+			if !a.lengthProp.writable && l == a.length {
+				// made read-only by the conversion of the value: defining the value it already has succeeds
+				return true
+			}
+			return a.setLength(l, throw)
 		} else {
 			return a.baseObject.setOwnStr(name, val, throw)
 		}
